@@ -113,4 +113,14 @@ theorem no_ping_before_data (cfg : Cfg) (now : Nat) (s : Eng) (h : s.phase ≠ .
   unfold onTick
   simp [h]
 
+/-- the heartbeat commands on the wire are those of RFC 37 (ZMTP 3.1): a command body starts with the length-prefixed name,
+`\x04PING` followed by a 2-byte TTL and the context (so the context starts at byte 7), `\x04PONG` followed by the context
+(byte 5) — pinned independently of the source, from which the models' constants are re-extracted -/
+theorem heartbeat_commands_are_rfc37 :
+    Gen.mkPing = [4, 0x50, 0x49, 0x4E, 0x47] ∧ Gen.mkPong = [4, 0x50, 0x4F, 0x4E, 0x47]   -- 'P' 'I'/'O' 'N' 'G'
+    ∧ Gen.cmdPing = Gen.mkPing ∧ Gen.cmdPong = Gen.mkPong
+    ∧ Gen.pingContextOffset = 1 + 4 + 2 ∧ Gen.pongContextOffset = 1 + 4
+    ∧ Gen.cmdPingMinLen = 7 ∧ Gen.cmdPongMinLen = 5 := by
+  decide
+
 end Rzmq.C19
